@@ -463,11 +463,14 @@ def build_expr(step, kids):
 # --------------------------------------------------------------------------- the run
 
 class Violation:
-    def __init__(self, prop, oracle, step_id, detail):
+    def __init__(self, prop, oracle, step_id, detail, f4_probe=None):
         self.prop = prop
         self.oracle = oracle          # violation class, e.g. "replica-mismatch"
         self.step_id = step_id
         self.detail = detail
+        # what the give-up counterfactual (known finding F4) has to look at: the digest(s) of the
+        # reference-side outcome under the shipped step budget
+        self.f4_probe = f4_probe
 
     def key(self):
         return (self.prop, self.oracle)
@@ -917,9 +920,11 @@ class Run:
         why = compare_outcomes(live_out, ref_out)
         if why is not None:
             oracle = "differs-from-fresh-copy" if mode == "recipe" else "evaluates-unlike-fresh-copy"
-            return self._viol(prop, oracle, step,
-                              f"step {step['id']} {step['k']} {_step_args(step)}: live {_short(live_out)} "
-                              f"vs fresh {_short(ref_out)} ({why})")
+            v = self._viol(prop, oracle, step,
+                           f"step {step['id']} {step['k']} {_step_args(step)}: live {_short(live_out)} "
+                           f"vs fresh {_short(ref_out)} ({why})")
+            v.f4_probe = {"kind": "step", "step": step["id"], "ref": outcome_str(ref_out)}
+            return v
         if live_out[0] == "num" and isinstance(live_out[1], float) and isinstance(ref_out[1], float):
             if live_out[1].hex() != ref_out[1].hex():
                 self.stats["bit_notes"] += 1
